@@ -157,6 +157,8 @@ func runC10(c *core.Ctx) {
 		{"second-of-two", "{% case a %}{% when other, b %}W{% else %}E{% endcase %}"},
 		{"second-clause", "{% case a %}{% when other %}O{% when b %}W{% when " + whenPoison + " %}P{% endcase %}"},
 		{"no-else", "{% case a %}{% when b %}W{% endcase %}"},
+		{"literal-then-variable", "{% case a %}{% when 'no-such-literal', b %}W{% else %}E{% endcase %}"},
+		{"literal-then-variable-2", "{% case a %}{% when 123456, other %}O{% when 'zz', b, 'yy' %}W{% endcase %}"},
 	}
 	for fi, f := range forms {
 		tpl, pr := core.ParsePlain(e, f.src)
@@ -189,7 +191,7 @@ func runC10(c *core.Ctx) {
 				want := "W"
 				if eq == ref.False {
 					switch fi {
-					case 0, 2:
+					case 0, 2, 5:
 						want = "E"
 					case 1, 3:
 						want = "\x00error" // the poison clause is reached
@@ -209,6 +211,25 @@ func runC10(c *core.Ctx) {
 					c.Violate("case|"+f.name+"|"+resClass(res), "case did not render the first when clause listing a value equal to its subject (else the else clause), or evaluated a later clause",
 						map[string]any{"source": f.src, "a": gen.Describe(ga), "b": gen.Describe(gb), "expected": strings.ReplaceAll(want, "\x00", "<"), "observed": res.Brief()})
 				}
+			}
+		}
+	}
+	// --- duality over every Go value of the universe (nil slices and maps, nil pointers, structs, ...) ------
+	for ui, u := range gen.PlainDataUniverse() {
+		idx++
+		if !c.Mine(idx) || !c.Begin("duality-universe:"+u.Name) {
+			continue
+		}
+		for _, form := range [][2]string{{"{% if v %}A{% else %}B{% endif %}", "{% unless v %}B{% else %}A{% endunless %}"},
+			{"{% if v %}A{% endif %}|{% if v == nil %}N{% endif %}", "{% unless v %}{% else %}A{% endunless %}|{% unless v != nil %}N{% endunless %}"}} {
+			uu := gen.PlainDataUniverse()
+			r1 := core.Run(e, form[0], map[string]any{"v": uu[ui].Go})
+			r2 := core.Run(e, form[1], map[string]any{"v": uu[ui].Go})
+			c.Eval(2)
+			c.Obs("duality_universe_cases", 1)
+			c.Distinct("dualu", u.Name, form[0])
+			if !r1.Same(r2) || r1.Panic != "" {
+				c.Violate("duality-universe|"+kindOf(u), "if/else and unless/else disagree for a binding value", map[string]any{"value": gen.Describe(uu[ui].Go), "if": form[0] + " => " + r1.Brief(), "unless": form[1] + " => " + r2.Brief()})
 			}
 		}
 	}
@@ -256,7 +277,11 @@ func runC10(c *core.Ctx) {
 		if !c.Begin("program:" + src + " env=" + env.String()) {
 			continue
 		}
-		if modelCompare(c, e, m, prog, env, nil, gen.DefaultStyle, "program", "a generated program of conditionals and loops rendered differently from the reference model") {
+		var bind map[string]any
+		if i%2 == 1 { // the same logical bindings carried by Drops: loops then re-bind a name to one Drop after another
+			bind = gen.RealiseEnv(env, c.Rand(i, 78), gen.Rep{Drops: true})
+		}
+		if modelCompare(c, e, m, prog, env, bind, gen.DefaultStyle, "program", "a generated program of conditionals and loops rendered differently from the reference model") {
 			c.Obs("program_cases", 1)
 			c.Distinct("prog", src, env.String())
 			if i%4001 == 2 {
